@@ -412,10 +412,10 @@ def run(ctx):
             continue
         ctx.dist['corpus-files'] += 1
         check_message(ctx, {'file': os.path.basename(f)}, toks, b, os.path.basename(f), ctx.n(4, 6), ctx.n(8, 30))
-    ctx.partial = ['C16_query_eq_reference (query = evaluation of the path over the nested JSON rendering, error classes included) is '
-                   'proved for paths of child and attribute steps (executable hypothesis simple_path); for paths with a descendant '
-                   '(>) step only the single step (C16_step_*), fuel monotonicity (C16_fuel_monotone) and the differential tie are established']
-    ctx.assumptions = ['descendant (>) paths: only the tie with the model and the bare-id law are checked',
+    ctx.partial = []
+    ctx.assumptions = ['paths with a descendant (>) step: proved against the nodes-first form of the reference (eval_json_nodes) over a '
+                       'saturated rendering (executable hypothesis, checked by the driver); the values-directly form (eval_json) is '
+                       'proved equal for child/attribute paths and compared on every run for the others',
                        'the Coq reference eval_json reads the rendering Nested.render_nodes, whose agreement with NestedJsonRenderer is '
                        "C09's correspondence; here it is additionally compared with the implementation's answers directly"]
 
